@@ -11,16 +11,26 @@ AREA = "c11"
 LEAN_PROPS = "Litep2pVerif.Props.C11"
 THEOREMS = ["handler_total", "bug_table", "grammar_alternation_partial", "grammar_alternation_witness",
             "no_failure_while_open_partial", "closed_on_disconnect", "notif_only_while_open",
-            "no_bug_reachable_witness", "open_answered_once_witness", "inbound_after_accept_witness"]
+            "no_bug_reachable_partial", "no_bug_next_partial", "no_bug_reachable_witness",
+            "open_answered_once_partial", "open_after_late_failure", "open_answered_once_witness",
+            "inbound_after_accept_partial", "inbound_after_accept_witness"]
 MANIFEST = {
     "text": "Lean 4 theorems about an executable model of the notification per-peer state machine (all states, every "
             "handler in the code's order of checks, debug_assert branches as explicit bug outputs) composed with its "
             "environment (Connection tasks with their two-step close, handshake service, validation answers, transport "
-            "obeying the C08 grammar) as a labelled transition system: handler totality with the computed bug table; "
-            "opened/closed alternation, no failure while open, every acknowledged open request answered exactly once, "
-            "inbound streams opened only after acceptance, closed reported on disconnect, no reachable bug output — "
-            "each for every schedule by invariant, three of them under an explicit scheduling/usage hypothesis because "
-            "the full statement is false of the code (witness theorems + known findings replayed on the real component). "
+            "obeying the C08 grammar) as a labelled transition system. Proved for every (state, event) pair: handler "
+            "totality with the computed bug table. Proved by invariant for every schedule of the restricted system "
+            "ReachP (all schedules and environment behaviours minus the two known findings, each excluded by one "
+            "explicit hypothesis: a closing Connection task finishes before the next event of that peer; a validation "
+            "answer is delivered only for the substream under validation): opened/closed alternate and no open failure is reported "
+            "while open; closed is reported after a disconnect; no debug_assert fires; request markers and answers "
+            "(opened / open failure; the user's own Reject counts as the answer, the code reports nothing then) "
+            "alternate strictly on the user channel, an open request for a connected idle peer is always taken up (also "
+            "after a SubstreamOpenFailure for the outbound substream of an accepted stream: repaired defect), and "
+            "nothing is owed once transport, handshakes, validations and timers are quiet; every opened is preceded in its "
+            "negotiation round by the Accept the user gave for exactly its inbound substream, or by auto-accept while the "
+            "user's own request is outstanding. The unrestricted statements are false of the code: four witness theorems, "
+            "replayed on the real component as known findings. "
             "Tie: seeded operation histories (2-3 peers, with/without auto-accept, simultaneous opens, rejections, "
             "handshake failures, substream open failures, drops and reconnects, timers, stalled closes) run on the real "
             "NotificationProtocol/NotificationHandle and on the model, every observation compared incl. internal peer "
@@ -30,7 +40,7 @@ MANIFEST = {
             "tokio mpsc FIFO; the transport obeys C08 (events only for connected peers, one answer per substream request); "
             "futures_timer delays replaced by explicit timer events. Handshake I/O progress is abstracted to its events.",
     "technique": "Lean 4 proof (invariants of a labelled transition system) + model/implementation correspondence check",
-    "design_ref": "DESIGN.md §7 C11, §8-j",
+    "design_ref": "DESIGN.md §7 C11, §8-j, §8-q",
 }
 RULE = ("seeded histories of transport events (conn/disc/dialfail/subout/subfail/subin), remote actions on in-memory "
         "substreams (handshake, close, reset, read, notification, stalled close), user commands (open/close/accept/"
@@ -49,6 +59,8 @@ ASSUMPTIONS = ["the transport answers each substream request at most once and on
                "protocol handles the next event for that peer (false only if Substream::close() stays pending)",
                "partial theorems: the user answers a ValidateSubstream event before the protocol abandons that inbound "
                "substream (validation answers are keyed by peer, not by substream)",
+               "open_answered_once counts the user's own Reject of the peer's inbound substream as the answer to the "
+               "user's outstanding open request (the code reports nothing in that case)",
                "every spawned future is eventually polled; Substream::close() eventually completes"]
 KEEP_PREFIX = 1
 
@@ -185,7 +197,12 @@ def witness_cases():
              "hs 1 out", "rread 1 in", "rread 1 out", "events", "state", "hs 2 out", "subin 2", "hs 2 in", "events",
              "send 2 0102", "rread 2 out", "rsend 2 in 0a0b", "events", "disc 2", "events", "state", "timer 1", "close 1",
              "events", "disc 1", "events", "state"]
-    return [stale_notice, late_closed, dangling, stale_accept, plain]
+    # open_answered_once_witness: the old task's late notice resets the state of a newly accepted stream, whose
+    # answer (opened / open failure) never comes
+    stale_request = ["cfg auto=0 dial=1", "conn 1", "subin 1", "hs 1 in", "events", "accept 1", "subout 1", "hs 1 out",
+                     "events", "stall 1 in", "rclose 1 in", "close 1", "subin 1", "hs 1 in", "events", "accept 1", "state",
+                     "release 1 in age=1", "events", "state", "disc 1", "events", "state"]
+    return [stale_notice, late_closed, dangling, stale_accept, plain, stale_request]
 
 
 def corpus():
@@ -410,7 +427,9 @@ def oracle(case, out):
     if complete and final_suffix:
         last = len(case) - 1
         for p, is_open in view_open.items():
-            if is_open:
+            # only for peers that really are disconnected at the end (a shrunk case may end with a `disc` of
+            # some other, unconnected peer)
+            if is_open and p not in connected:
                 v("not-closed-on-disconnect", f"connection to peer {p} lost but its open stream was never reported "
                   f"closed", last, stale_conn_task=(p in taint))
     if complete:
